@@ -17,7 +17,7 @@ ParenFaults == {"unbal", "dbl", "empty", "stray"}
 KnownNone == {}
 KnownWPos == {"witness_validate_position_lost_on_continuation"}
 KnownWAction == {"witness_writer_action_identifier"}
-KnownC10 == {"writer_action_identifier"}
-KnownC11 == {"validate_position_lost_on_continuation"}
+KnownC10 == {}      \* writer_action_identifier repaired by 855d795 (what-if: KnownWAction)
+KnownC11 == {}      \* validate_position_lost_on_continuation repaired by 38eeb2b (what-if: KnownWPos)
 \* export of the explored (model, layout) cases: states with pc = "done" are read from TLC's -dump
 =============================================================================
